@@ -195,6 +195,10 @@ def saveStr (init : List Bytes) (flag : String) (s : FS9) (res : MRes) (calls fa
     | _ => ""
   "m" ++ flag ++ valid ++ ":" ++ status ++ ":" ++ toString calls ++ "." ++ toString fails ++ ":" ++ listingStr (listFS s) ++ ":" ++ rl ++ ":" ++ storeStr init s.world
 
+/-- every save: the list the model marshals must be closed, clash-free, with distinct proper names (the
+structural hypotheses of the C09 theorems, decided by `shapeOK`); `glue` never agrees with the implementation -/
+def guardShape (s : FS9) (str : String) : String := if shapeOK (treeOf s) then str else "glue"
+
 def runOps (max : Nat) (init : List Bytes) : DState → List Op9 → List String → List String
   | _, [], acc => acc.reverse
   | st, op :: ops, acc =>
@@ -230,7 +234,7 @@ def runOps (max : Nat) (init : List Bytes) : DState → List Op9 → List String
       let flag := if !st.racy then (if event then "~" else "=") else (if st.dirty then "?" else "~")
       let dirty := if st.racy then st.dirty
                    else if event then !scriptClean (afterFirstFail st.s.world) else !scriptClean s'.world
-      runOps max init { s := s', racy := st.racy || event, dirty := dirty } ops (saveStr init flag s' res n f :: acc)
+      runOps max init { s := s', racy := st.racy || event, dirty := dirty } ops (guardShape st.s (saveStr init flag s' res n f) :: acc)
     | Op9.hmarshal sc d =>
       -- a save under its own failure script (which ends with the op) while the successful Keep writes stay in
       -- flight until the save waits for them: a save returns only after every write it started has returned
@@ -244,7 +248,7 @@ def runOps (max : Nat) (init : List Bytes) : DState → List Op9 → List String
       let s' := { s1 with world := { s1.world with script := [], dflt := Outcome.ok } }
       let event := f ≥ 1 && n ≥ 2
       let flag := if !st.racy then (if event then "~" else "=") else (if scriptClean w then "~" else "?")
-      runOps max init { s := s', racy := st.racy || event, dirty := false } ops (saveStr init flag s' res n f :: acc)
+      runOps max init { s := s', racy := st.racy || event, dirty := false } ops (guardShape st.s (saveStr init flag s' res n f) :: acc)
 
 def needsSerial : Op9 → Bool
   | Op9.keep sc d => !(sc.isEmpty && d == Outcome.ok)
